@@ -3,6 +3,7 @@ import SslModel.Gen.ScalarOps
 import SslModel.Model.Pratt
 import SslModel.Gen.PrattTable
 import SslModel.Model.Seq
+import SslModel.Model.TyIO
 /-! Model side of the correspondence: one request per line on stdin, one canonical answer per
     line on stdout.  Import-free apart from the model, so it links as a native executable. -/
 open Ssl
@@ -111,7 +112,30 @@ def optInt (s : String) : Option (Option Int) :=
 
 def showInts (l : List Int) : String := "[" ++ " ".intercalate (l.map toString) ++ "]"
 
+def b01 (b : Bool) : String := if b then "1" else "0"
+def optN : Option Nat → String
+  | some n => s!"(some {n})" | none => "none"
+
+def handleTy (rest : String) : String :=
+  match Sexp.parseMany rest with
+  | [.atom "rel", a, b] =>
+    match Ty.ofSexp a, Ty.ofSexp b with
+    | some a, some b =>
+      s!"eq={b01 (Ty.eqv a b)} ab={b01 (Ty.sub a b)} ba={b01 (Ty.sub b a)} {(Ty.concat a b).render} {(Ty.conjoin a b).render}"
+    | _, _ => "(bad-type)"
+  | [.atom "q", a] =>
+    match Ty.ofSexp a with
+    | some a =>
+      s!"(index_result {Ty.showOpt a.indexResult}) (element_type {Ty.showOpt a.elementType}) (return_type {Ty.showOpt a.returnType}) (params {Ty.showOptL a.params}) (mut_element_type {Ty.showOpt a.mutElementType}) (is_function {a.isFunction}) (is_tuple {a.isTuple}) (is_mut {a.isMut}) (tuple_len {optN a.tupleLen}) (min_tuple_len {optN a.minTupleLen}) (flatten_tuple {Ty.showOptL a.flattenTuple}) (iter_element {Ty.showOpt a.iterElement}) (tuple_element_at0 {Ty.showOpt (a.tupleElementAt 0)}) (tuple_element_at1 {Ty.showOpt (a.tupleElementAt 1)}) (field_type_a {Ty.showOpt (a.fieldType "a")}) (field_type_b {Ty.showOpt (a.fieldType "b")}) (has_field_a {a.hasField "a"}) (can_be_indexed {a.canBeIndexed}) (is_iterator {a.isIterator}) (is_struct {a.isStruct})"
+    | none => "(bad-type)"
+  | [.atom "wf", a] =>
+    match Ty.ofSexp a with
+    | some a => b01 a.wf
+    | none => "(bad-type)"
+  | _ => "(bad-request)"
+
 def handle (line : String) : String :=
+  if line.startsWith "ty " then handleTy ((line.drop 3).trimAscii.toString) else
   match line.trimAscii.toString.splitOn " " with
   | "pratt" :: rules => handlePratt rules
   | ["seq-at", n, i] =>
